@@ -147,6 +147,17 @@ func (e *bEngine) applyContract(st *bState, con *Contract, callee *ssa.Function,
 	for _, x := range con.Assigns {
 		e.havocPoly(st, e.env(st, st, bind, nil, con, pkg).Eval(x), short)
 	}
+	// clobbers <expr>: the callee may write every polynomial REACHABLE from that value (a receiver handed over
+	// as an interface, a matrix of rows whose shape the contract does not fix): their ghost attributes are forgotten
+	for _, raw := range con.Raw["clobbers"] {
+		for _, part := range splitTop(raw, ',') {
+			x, err := parser.ParseExpr(strings.TrimSpace(part))
+			if err != nil {
+				panic(verr("%s: bad clobbers clause %q", con.File, raw))
+			}
+			e.clobber(st, e.env(st, st, bind, nil, con, pkg).Eval(x), map[string]bool{}, 0)
+		}
+	}
 	e.applyDraws(st, con, bind, pkg)
 	e.applyHavocs(st, con, bind, pkg, func(name string) types.Type {
 		for _, p := range callee.Params {
@@ -2052,4 +2063,51 @@ func (e *bEngine) mapUpdate(st *bState, m, key, val bVal) bool {
 	}
 	st.mapv[id] = map[string]bMapEntry{st.norm(ks.t).Key(): {val: cloneVal(val), ok: TTrue}}
 	return true
+}
+
+// clobber forgets the ghost attributes of every polynomial reachable from v through the parts of the object
+// graph the execution has materialised (parts it has never looked at are unconstrained anyway).
+func (e *bEngine) clobber(st *bState, v bVal, seen map[string]bool, depth int) {
+	if depth > 12 || v == nil {
+		return
+	}
+	switch a := v.(type) {
+	case bPtr:
+		if a.obj == 0 {
+			return
+		}
+		k := fmt.Sprintf("p%d%s", a.obj, a.path)
+		if seen[k] {
+			return
+		}
+		seen[k] = true
+		e.clobber(st, e.loadAt(st, a), seen, depth+1)
+	case *bIface:
+		e.clobber(st, a.val, seen, depth+1)
+	case bSlice:
+		if a.nil_ {
+			return
+		}
+		k := fmt.Sprintf("a%d", a.arr)
+		if seen[k] {
+			return
+		}
+		seen[k] = true
+		o := e.obj(st, a.arr)
+		for _, key := range sortedKeys(o.elems) {
+			e.clobber(st, o.elems[key], seen, depth+1)
+		}
+	case *bStruct:
+		if _, ok := e.polyID(st, a); ok {
+			e.havocPoly(st, a, "clobbers")
+			return
+		}
+		for _, key := range sortedKeys(a.f) {
+			e.clobber(st, a.f[key], seen, depth+1)
+		}
+	case bTuple:
+		for _, x := range a {
+			e.clobber(st, x, seen, depth+1)
+		}
+	}
 }
